@@ -149,6 +149,8 @@ impl C11 {
     fn gen(g: &mut Gen, tier: Tier) -> TrainCase {
         let mut c = mixed_case(g, tier, 0.4);
         c.simulation_days = [None, Some(1), Some(7), Some(365)][g.idx(4)];
+        c.scenario_year = [None, Some(2030), Some(2050), Some(7)][g.idx(4)];
+        c.and_parts = g.bool(0.35);
         c
     }
     fn check(case: &TrainCase, cx: &mut Ctx) {
@@ -179,7 +181,7 @@ impl Property for C11 {
     }
     crate::typed_property!(C11, TrainCase);
     fn rule(&self) -> String {
-        "set-speed (60 %) and speed-limited (40 %) runs; per saved step train.pwr_whl_out == consist.pwr_out_req == consist.pwr_out (1e-8) == sum loco.pwr_out, cumulative wheel energy and its positive/negative parts identical at train, consist and summed-locomotive level; at the end consist fuel / battery totals == sums over components and (speed-limited) trip getters == totals x 365.25/simulation_days for annualize in {false,true}, days in {None,1,7,365}. Non-trivial: both power signs and a mixed conventional/battery consist".into()
+        "set-speed (60 %) and speed-limited (40 %) runs; per saved step train.pwr_whl_out == consist.pwr_out_req == consist.pwr_out (1e-8) == sum loco.pwr_out, cumulative wheel energy and its positive/negative parts identical at train, consist and summed-locomotive level; at the end consist fuel / battery totals == sums over components and (speed-limited) trip getters == totals x 365.25/simulation_days for annualize in {false,true}, days in {None,1,7,365}, scenario year in {None,2030,2050,7}; 35 % of the sims are built through the ..._and_parts sibling constructors. Non-trivial: both power signs and a mixed conventional/battery consist".into()
     }
     fn assumptions(&self) -> Vec<String> {
         train_assumptions()
